@@ -88,8 +88,8 @@ def run(tier):
                                        only=('linear_handled', 'items2_c1_err1', 'diamond_j-1_aerr') if tier == 'quick' else small)
         out += ec.catalogue_model_runs(d, tier, shapes=fshapes, ops=3, kinds=('rerun', 'pause', 'resume'), tag='_rpr', liveness_for=(),
                                        # (items2_c1_err1 with rerun + pause + resume violates WithinLimitM in the model - more than `concurrency`
-                                       #  items RUNNING; whether the engine does the same was not established before the end of the work: left out,
-                                       #  recorded in DESIGN.md 0.6 as open)
+                                       #  items RUNNING; the real engine follows that counterexample step by step: a genuine defect that the model
+                                       #  has no hist flag for yet - left out until it has, see DESIGN.md 0.6)
                                        only=('linear_handled',))
         if tier == 'thorough':
             out += ec.catalogue_model_runs(d, tier, shapes=fshapes, ops=2, kinds=('rerun', 'pause', 'resume'), tag='_rp2', liveness_for=(),
